@@ -202,7 +202,12 @@ def _robustify(out, case, cfg, pm, timeout_ms, opts=None):
       if opts and opts.get('inline'):
         only = tuple(case.lift_keep_stubs)
       with H.stubbed(except_keys=(ct.key,), only=only):
-        o = real(*args, **kw)
+        try:
+          o = real(*args, **kw)
+        except (ValueError, TypeError, IndexError, KeyError, AssertionError, ZeroDivisionError) as e:
+          o = ct.raised(e, *args, **kw)
+        else:
+          o = ct.view(o, *args, **kw)
       return ct.post(o, *args, **kw)
     return case.body(cfg, c)
 
@@ -253,12 +258,25 @@ def _xcheck_symbolic_side(case, cfg, seed):
       kw = _concretise(kw, rng, env)
     else:
       args, kw = conc
+    custom_view = type(ct).native_view is not H.Contract.native_view
     try:
       o = real(*args, **kw)
+      if custom_view:
+        o = ct.view(o, *args, **kw)
     except Exception as e:  # pylint: disable=broad-except
+      if custom_view:
+        try:
+          o = ct.raised(e, *args, **kw)
+          return {'desc': describe_call(ct, args, kw, _Env()), 'expected': encode_value(o, _Env()),
+                  'view': ct.key}
+        except Exception:  # pylint: disable=broad-except
+          pass
       return {'desc': describe_call(ct, args, kw, _Env()), 'raised': type(e).__name__,
               'trace': traceback.format_exc()[-1500:]}
-    return {'desc': describe_call(ct, args, kw, _Env()), 'expected': encode_value(o, _Env())}
+    r = {'desc': describe_call(ct, args, kw, _Env()), 'expected': encode_value(o, _Env())}
+    if custom_view:
+      r['view'] = ct.key
+    return r
 
 
 def _concretise(v, rng, env):
@@ -429,11 +447,11 @@ def _replay_prepare(pm, case_name, cfg, model):
 def _replay_evaluate(pm, case_name, cfg, model, desc, nat, tol=1e-7):
   """Evaluates every contract clause on the REAL output (fresh output symbols bound to it)."""
   from . import expr as E, harness as H, ctx as C
-  if 'error' in nat:
-    return {'desc': desc, 'native': nat, 'failing': ['raised ' + nat['error']], 'raised': True}
   E.reset()
   case = pm.CASES[case_name]
   ct = H.REGISTRY[case.contract_key]
+  if 'error' in nat and type(ct).native_view is H.Contract.native_view:
+    return {'desc': desc, 'native': nat, 'failing': ['raised ' + nat['error']], 'raised': True}
   c = C.Ctx()
   env = _Env()
   for k, v in (model or {}).items():
@@ -444,7 +462,7 @@ def _replay_evaluate(pm, case_name, cfg, model, desc, nat, tol=1e-7):
     case.setup(cfg, c)
     args, kw = case.build(cfg)
     fresh = ct.fresh_out(*args, **kw)
-    _bind_native_out(fresh, nat['ok'], env)
+    _bind_native_out(fresh, ct.native_view(nat), env)
     failing = []
     scale = max([1.0] + [abs(v) for v in env.values() if isinstance(v, float)])
     pre_ok = all(b.eval(env, None, tol * scale) for _, b in ct.pre(*args, **kw))
@@ -468,7 +486,7 @@ def load_known(prop_id):
   if os.path.exists(path):
     for line in open(path):
       line = line.strip()
-      if not line or line.startswith('#'):
+      if not line or line.startswith('#') or line.startswith('fixed:'):
         continue
       d = json.loads(line)
       if d.get('property') == prop_id:
@@ -563,8 +581,14 @@ def conclude(pm, tier, seed, results, t0, extra=None, run_jobs=None, opts=None):
   if xc:
     try:
       nat = run_native([x['desc'] for x in xc])
+      from . import harness as _H
       for x, n in zip(xc, nat):
         xc_stats['compared'] += 1
+        if x.get('view'):
+          got = encode_value(_H.REGISTRY[x['view']].native_view(n), _Env())
+          if not _close(x['expected'], got):
+            xc_stats['mismatch'].append({'desc': x['desc'], 'contract_lib': x['expected'], 'tf': n})
+          continue
         if 'raised' in x:
           if 'error' not in n:
             xc_stats['mismatch'].append({'desc': x['desc'], 'contract_lib': 'raised ' + x['raised'],
